@@ -4,6 +4,7 @@ mod enginep;
 mod fw;
 mod gens;
 mod hooks;
+mod httpd;
 mod ops;
 mod oracle;
 mod props;
@@ -83,6 +84,7 @@ macro_rules! dispatch {
             "C16" => $f::<props::c16::C16>($($args),*),
             "C17" => $f::<props::c17::C17>($($args),*),
             "C19" => $f::<props::c19::C19>($($args),*),
+            "C20" => $f::<props::c20::C20>($($args),*),
             other => {
                 eprintln!("unknown property {other}");
                 std::process::exit(2);
